@@ -993,7 +993,41 @@ func (r *ref) call(at any, name string, args []any) any {
 		default:
 			fail("zone location %T", tv)
 		}
-	case "each", "inspect":
+	case "each":
+		// "Each ." is all the description there is. What is modelled here is what the library's
+		// own tests of each show and nothing more: the function given as second argument is
+		// evaluated once per element of the list, with a local value {src: element} as @, and
+		// the member named by the optional third argument (default "asm") of that local value
+		// is collected.
+		if len(args) < 2 || 3 < len(args) {
+			fail("each arity")
+		}
+		list, ok := r.evalArg(at, args[0]).([]any)
+		if !ok {
+			fail("each list")
+		}
+		fname, fargs, ok := isCall(args[1])
+		if !ok {
+			fail("each function")
+		}
+		key := "asm"
+		if len(args) == 3 {
+			if key, ok = r.evalArg(at, args[2]).(string); !ok {
+				fail("each key")
+			}
+		}
+		if len(list) == 0 {
+			unspec("each over an empty list") // nil or empty is not said
+		}
+		r.feats["each"] = true
+		var result []any
+		for _, src := range list {
+			local := map[string]any{"src": src}
+			r.call(local, fname, fargs)
+			result = append(result, local[key])
+		}
+		return result
+	case "inspect":
 		unspec("%s is not described", name)
 	}
 	unspec("function %s", name)
@@ -1066,9 +1100,12 @@ func (r *ref) floatFold(vals []any, op func(a, b float64) float64) any {
 		}
 		if i == 0 {
 			iacc = iv
+			if iv >= 1<<53 || iv <= -(1<<53) {
+				unspec("integer prefix beyond 2^53")
+			}
 		} else {
 			f := op(float64(iacc), float64(iv))
-			if math.Abs(f) > 1<<53 {
+			if math.Abs(f) >= 1<<53 { // at 2^53 the next odd integer is already lost in float64
 				unspec("integer prefix beyond 2^53")
 			}
 			iacc = int64(f)
